@@ -329,7 +329,51 @@ func (w *World) serviceSettings(t *topo) service.Settings {
 
 // ---- C09 ----------------------------------------------------------------------------------------------------
 
-func runC09(r *simkit.Run) {
+func runC09(r *simkit.Run) { runRouting(r, "C09") }
+
+// pipeMutates is the reference for a pipeline's advertised capability: one of its processors mutates, or its
+// exporter stage hands the original payload to a mutating exporter (all of its exporters mutate).
+func (t *topo) pipeMutates(p pipeCfg) bool {
+	for _, x := range p.Proc {
+		if typeOf(x) == "proc" {
+			return true
+		}
+	}
+	if len(p.Exp) == 0 {
+		return false
+	}
+	// the exporter stage hands the original to a mutating consumer only if every consumer of the stage mutates
+	for _, x := range p.Exp {
+		if !isConn(x) {
+			if typeOf(x) != "mexp" {
+				return false
+			}
+			continue
+		}
+		// one consumer per (connector, target signal) in use. A connector between pipelines of the same signal may
+		// pass the payload along, so it counts as mutating when a pipeline it feeds mutates; a converting one does not.
+		for _, to := range signals {
+			if !connSupports(typeOf(x), p.Sig, to) {
+				continue
+			}
+			used, mut := false, false
+			for _, q := range t.Pipes {
+				if q.Sig == to && contains(q.Recv, x) {
+					used = true
+					if to == p.Sig && t.pipeMutates(q) {
+						mut = true
+					}
+				}
+			}
+			if used && !mut {
+				return false
+			}
+		}
+	}
+	return true
+}
+
+func runRouting(r *simkit.Run, prop string) {
 	tp := r.Tape
 	t := genTopo(tp, false)
 	r.Sample = t
@@ -426,6 +470,19 @@ func runC09(r *simkit.Run) {
 		if rc == nil {
 			r.Failf("instances", "receiver/missing", "no receiver instance %s for %s", in.recv, in.sig)
 			continue
+		}
+		if prop == "C06" {
+			// what the receiver is told about mutation: every pipeline it feeds on this signal mutates
+			wantCap, np := true, 0
+			for _, p := range t.Pipes {
+				if p.Sig == in.sig && contains(p.Recv, in.recv) {
+					np++
+					wantCap = wantCap && t.pipeMutates(p)
+				}
+			}
+			if got := rc.next.caps().MutatesData; got != wantCap {
+				r.Failf("capability", fmt.Sprintf("pipelines-fed-%d", min(np, 2)), "receiver %s (%s) feeds %d pipelines; it is told MutatesData=%v, the configuration implies %v", in.recv, in.sig, np, got, wantCap)
+			}
 		}
 		before := len(w.Deliveries())
 		var cerr error
